@@ -15,8 +15,8 @@ def plan(prop, tier):
     n = 16 if q else 64
     per = {'C06': 260, 'C07': 260, 'C11': 220, 'C14': 120, 'C19': 500}[prop] if q else {'C06': 6000, 'C07': 6000, 'C11': 5000, 'C14': 2500, 'C19': 12000}[prop]
     shards = [('prog', SEED * 1000 + i, per) for i in range(n)]
-    if prop == 'C11':
-        shards.append(('deep', 0, 0))
+    if prop in ('C11', 'C07'):
+        shards.append(('deep', 0, 0))     # refused duplicates of over-deep / cyclic structures must not leak either
     if prop == 'C14':
         # allocation failures under every hook configuration: failure paths release memory too
         for i in range(4 if q else 16):
@@ -441,7 +441,7 @@ def judge_deep(prop, cl, ex, out, wit, first, fl):
         _, ck, depth, expect = ex
         f = cl.ops.get(2)
         if not f or f[0] != 'stackop':
-            out.vios.append(Violation(prop, 'C11/deep/no-result', 'no record for the deep duplicate', wit(cl, 2)))
+            out.vios.append(Violation(prop, prop + '/deep/no-result', 'no record for the deep duplicate', wit(cl, 2)))
             return
         kv = dict(x.split('=') for x in f[3:])
         got = f[2]
@@ -449,30 +449,30 @@ def judge_deep(prop, cl, ex, out, wit, first, fl):
             out.count('deep:%s' % ('ok' if expect == 'p' else 'refused'))
             out.sample({'chain': ck, 'depth': depth, 'result': got, 'stack_bytes': int(kv['used']), 'flavour': fl})
         if got != expect:
-            out.vios.append(Violation(prop, 'C11/deep/' + ('refused-within-limit' if expect == 'p' else 'accepted-beyond-limit'), 'chain of %d nested %s: Duplicate returned %s' % (depth, ck, got), wit(cl, 2)))
+            out.vios.append(Violation(prop, prop + '/deep/' + ('refused-within-limit' if expect == 'p' else 'accepted-beyond-limit'), 'chain of %d nested %s: Duplicate returned %s' % (depth, ck, got), wit(cl, 2)))
         if got == 'nil' and kv.get('live_since', '0') != '0':
-            out.vios.append(Violation(prop, 'C11/deep/leak-on-refusal', '%s blocks of the partial copy remain' % kv['live_since'], wit(cl, 2)))
+            out.vios.append(Violation(prop, prop + '/deep/leak-on-refusal', '%s blocks of the partial copy remain' % kv['live_since'], wit(cl, 2)))
         if int(kv['used']) > 8 * 1024 * 1024:
-            out.vios.append(Violation(prop, 'C11/deep/stack', '%s bytes of stack' % kv['used'], wit(cl, 2)))
+            out.vios.append(Violation(prop, prop + '/deep/stack', '%s bytes of stack' % kv['used'], wit(cl, 2)))
         if cl.ops.get(1) != cl.ops.get(3):
-            out.vios.append(Violation(prop, 'C11/deep/source-modified', 'source dump changed across Duplicate', wit(cl, 3)))
+            out.vios.append(Violation(prop, prop + '/deep/source-modified', 'source dump changed across Duplicate', wit(cl, 3)))
         if cl.end and cl.end.get('live') != '0':
-            out.vios.append(Violation(prop, 'C11/deep/leak', '%s blocks live at the end' % cl.end['live'], wit(cl, 0)))
+            out.vios.append(Violation(prop, prop + '/deep/leak', '%s blocks live at the end' % cl.end['live'], wit(cl, 0)))
     else:
         ncyc = ex[1]
         f = [v for k, v in sorted(cl.ops.items()) if v and v[0] == 'stackop']
         if not f:
-            out.vios.append(Violation(prop, 'C11/cycle/no-result', 'no record', wit(cl, 0)))
+            out.vios.append(Violation(prop, prop + '/cycle/no-result', 'no record', wit(cl, 0)))
             return
         kv = dict(x.split('=') for x in f[0][3:])
         if first:
             out.count('cycle:%d' % ncyc)
         if f[0][2] != 'nil':
-            out.vios.append(Violation(prop, 'C11/cycle/accepted', '%d-node child cycle was duplicated' % ncyc, wit(cl, 0)))
+            out.vios.append(Violation(prop, prop + '/cycle/accepted', '%d-node child cycle was duplicated' % ncyc, wit(cl, 0)))
         elif kv.get('live_since', '0') != '0':
-            out.vios.append(Violation(prop, 'C11/cycle/leak-on-refusal', '%s blocks remain' % kv['live_since'], wit(cl, 0)))
+            out.vios.append(Violation(prop, prop + '/cycle/leak-on-refusal', '%s blocks remain' % kv['live_since'], wit(cl, 0)))
         if cl.end and cl.end.get('live') != '0':
-            out.vios.append(Violation(prop, 'C11/cycle/leak', '%s blocks live at the end' % cl.end['live'], wit(cl, 0)))
+            out.vios.append(Violation(prop, prop + '/cycle/leak', '%s blocks live at the end' % cl.end['live'], wit(cl, 0)))
 
 
 def finish(prop, tier, results):
